@@ -27,6 +27,7 @@ inductive Op where
   | sample (draws : List (List Nat))     -- one run drawing these settings (direct or through a crop)
   | newSampler                           -- a fresh Sampler object on the same data file
   | switch                               -- park the current object and continue with the parked (or a fresh) one
+  | look                                 -- read `full_df` of the current object (loads and keeps the file's table if nothing is loaded)
 deriving Repr
 
 def rowsOf {β} (f : List Nat → List β) (draws : List (List Nat)) : List (Row β) :=
@@ -47,6 +48,7 @@ def step {β} (f : List Nat → List β) (s : St β) : Op → St β
   | .sample draws => addDf s (rowsOf f draws)
   | .newSampler => { s with mem := none }
   | .switch => { s with mem := s.other, other := s.mem }
+  | .look => { s with mem := match s.mem with | some t => some t | none => s.disk }
 
 /-- `Sampler.full_df`: loads from the file on first access -/
 def fullDf {β} (s : St β) : Option (List (Row β)) :=
@@ -62,5 +64,6 @@ def allDraws : List Op → List (List Nat)
   | .sample d :: rest => d ++ allDraws rest
   | .newSampler :: rest => allDraws rest
   | .switch :: rest => allDraws rest
+  | .look :: rest => allDraws rest
 
 end Sampler
